@@ -33,8 +33,8 @@ func init() {
 					w.Bucket("cold-start")
 				}},
 				{Name: "all-ranges-structured", N: 3 * 4 * 4 * 3, Run: c13Structured},
-				{Name: "all-ranges-zoo", N: c.Pick(1500, 300000), Run: c13AllZoo},
-				{Name: "sampled-long", N: c.Pick(20000, 4000000), Run: c13Long},
+				{Name: "all-ranges-zoo", Env: 2, N: c.Pick(1500, 300000), Run: c13AllZoo},
+				{Name: "sampled-long", Env: 10, N: c.Pick(20000, 4000000), Run: c13Long},
 				{Name: "huge-bitmap", N: 1, Run: c13Huge},
 			}
 		},
